@@ -129,7 +129,7 @@ func (mach *unmarshalMachinePrimitive) Step(_ *Unmarshaller, _ *unmarshalSlab, t
 	case reflect.Slice: // implicitly bytes; no other slices are "primitive"
 		switch tok.Type {
 		case TBytes:
-			mach.rv.SetBytes(tok.Bytes)
+			mach.rv.SetBytes(copyBytes(tok.Bytes))
 			return true, nil
 		case TNull:
 			mach.rv.SetBytes(nil)
@@ -165,7 +165,7 @@ func (mach *unmarshalMachinePrimitive) Step(_ *Unmarshaller, _ *unmarshalSlab, t
 		case TString:
 			mach.rv.Set(reflect.ValueOf(tok.Str))
 		case TBytes:
-			mach.rv.Set(reflect.ValueOf(tok.Bytes))
+			mach.rv.Set(reflect.ValueOf(copyBytes(tok.Bytes)))
 		case TBool:
 			mach.rv.Set(reflect.ValueOf(tok.Bool))
 		case TInt:
@@ -187,4 +187,15 @@ func (mach *unmarshalMachinePrimitive) Step(_ *Unmarshaller, _ *unmarshalSlab, t
 	default:
 		panic(fmt.Errorf("unhandled: %v", mach.kind))
 	}
+}
+
+// Tokens only reference the bytes of their source (which may be live data, as
+// when cloning, or a reused buffer); what we store must not alias that.
+func copyBytes(bs []byte) []byte {
+	if bs == nil {
+		return nil
+	}
+	cp := make([]byte, len(bs))
+	copy(cp, bs)
+	return cp
 }
